@@ -903,8 +903,19 @@ def correspond(ctx, cases, label, shard=6, jobs=14, timeout=900):
     ctx.rng.shuffle(fp_idx)
     Cache = _cache_cls()
     import tempfile
-    for k in fp_idx[: (6 if ctx.thorough else 3)]:
-        base = cases[k]
+    # a degenerate grid (one row or one column) with several levels: the arrays a hit returns must have the shapes and the
+    # height of every slice that the solver returns (a cache that stores 1-D axes and guesses the rank from the squeezed arrays)
+    seq_bases = [cases[k] for k in fp_idx[: (6 if ctx.thorough else 3)]]
+    try:
+        one_row = ctx.rng.random() < 0.5
+        deg = mk_case(ctx.rng, nx=(ctx.rng.choice([5, 6]) if one_row else 1), ny=(1 if one_row else ctx.rng.choice([4, 5])), nz=4,
+                      levels=ctx.rng.choice([[0, 3], [3, 1, 2], [2, 2]]), footprint=True, halo=ctx.rng.choice([0.0, None]), modes=(64, 64), precision="double")
+        if run_impl(S, deg)["err"] == 0:
+            seq_bases.append(deg)
+    except Exception:
+        pass
+    for sk, base in enumerate(seq_bases):
+        k = len(cases) + sk
         cdir = tempfile.mkdtemp(prefix="sccache_", dir=ctx.build)
         cache = Cache(cache_dir=cdir)
         sibc = sibling(ctx.rng, base, ctx.rng.choice(["bg", "levels-reversed", "halo", "meas", "source-values"]))
